@@ -35,7 +35,7 @@ def main():
         fired = {}
         try:
             for c in checks:
-                rc, out = sh("./check %s --tier quick" % c, cwd=VERIF)
+                rc, out = sh("VERIF_EVIDENCE_DIR=/tmp/seed-evidence ./check %s --tier quick" % c, cwd=VERIF)
                 if rc != 0:
                     rules = sorted({l.split("[")[1].split("]")[0] for l in out.splitlines() if "[" + c in l and "]" in l})
                     fired[c] = rules
